@@ -2,8 +2,8 @@
 
 Parts (DESIGN §2.4):
   1. proofs         Props/C19.v (+ Proofs/ABI*Proof.v, Proofs/AssignableProof.v)
-  2. spec validation  coq/ABI/Spec.v (type_str / is_dynamic / static_len / arc4_encode) against the
-                    reference codec algosdk.abi — a disagreement is a MODEL problem (exit 2)
+  2. spec validation  coq/ABI/Spec.v (type_str / is_dynamic / static_len / arc4_encode / arc4_decode) and
+                    ABI/Layout.v canon against the reference codec algosdk.abi — a disagreement is a MODEL problem (exit 2)
   3. correspondence Python type_spec_is_assignable_to / == / str() / issubclass  vs  the extracted model
                     (ABI/Assignable.v, ABI/Descr.v): corpus, EXHAUSTIVE over all ordered pairs of a bounded
                     universe, seeded random deeper pairs (related by mutation so that both answers are common)
@@ -183,6 +183,7 @@ def validate_spec(ck, model, thorough):
         shapes.append(AB.rand_type(rng, rng.choice([1, 2, 2, 3, 3, 4]), special=0.0))
     bad = 0
     nvals = 0
+    ndec = 0
     for t in shapes:
         ck.count(("spec", t), nontrivial=AB.size(t) > 1)
         s = AB.arc4_str(t)
@@ -216,6 +217,42 @@ def validate_spec(ck, model, thorough):
                     s, v, gotb.hex() if gotb is not None else None, typed, refb.hex() if refb is not None else ref))
                 bad += 1
                 break
+            # decoding: the model decodes the reference encoding back to the value; a damaged encoding is
+            # accepted only if the reference codec agrees that it is the encoding of the decoded value
+            if refb is not None and len(refb) < 3000:
+                dm = model.ask((S("decode"), AB.ty_sx(t), refb))
+                ndec += 1
+                if dm[0] != S("some") or AB.norm_value(AB.val_from_wire(dm[1])) != AB.norm_value(v):
+                    ck.model_problem("ABI/Spec.v arc4_decode %s %s: model %r, expected %r" % (s, refb.hex(), dm, v))
+                    bad += 1
+                    break
+                if refb and k == 0:
+                    dmg = bytearray(refb)
+                    how = rng.randrange(4)
+                    if how == 0:
+                        dmg[rng.randrange(len(dmg))] ^= 1 << rng.randrange(8)
+                    elif how == 1:
+                        dmg = dmg[:-1]
+                    elif how == 2:
+                        dmg += bytes([rng.randrange(256)])
+                    else:
+                        dmg[rng.randrange(len(dmg))] = rng.randrange(256)
+                    dmg = bytes(dmg)
+                    dm = model.ask((S("decode"), AB.ty_sx(t), dmg))
+                    ndec += 1
+                    try:
+                        sv = a.decode(dmg)
+                        sdk_ok = a.encode(sv) == dmg
+                    except Exception:  # noqa
+                        sv, sdk_ok = None, False
+                    if dm[0] == S("some"):
+                        re = AB.sdk_encode(a, AB.val_from_wire(dm[1]))
+                        if re != ("ok", dmg) and re != ("err", "UnicodeDecodeError"):  # (a damaged `string` need not be UTF-8: not expressible to algosdk)
+                            ck.model_problem("ABI/Spec.v arc4_decode accepts %s at %s as %r but algosdk encodes that value as %r" % (dmg.hex(), s, dm[1], re))
+                            bad += 1
+                    elif sdk_ok:
+                        ck.model_problem("ABI/Spec.v arc4_decode rejects %s at %s although algosdk decodes it to %r and re-encodes it identically" % (dmg.hex(), s, sv))
+                        bad += 1
             # the list spelling of byte strings means the same
             nv = AB.norm_value(v)
             if nv != v:
@@ -247,7 +284,7 @@ def validate_spec(ck, model, thorough):
             ck.model_problem("ABI/Spec.v arc4_encode edge case %s: model %s, algosdk %s" % (
                 AB.arc4_str(t), "some" if gotb is not None else None, "ok" if refb is not None else ref))
             bad += 1
-    ck.coverage["spec_validation"] = {"shapes": len(shapes), "values": nvals, "disagreements": bad}
+    ck.coverage["spec_validation"] = {"shapes": len(shapes), "values": nvals, "decodes": ndec, "disagreements": bad}
 
 
 # ---------------------------------------------------------------------------------------------
@@ -258,8 +295,32 @@ def real_assignable(A, B):
     return call_real(type_spec_is_assignable_to, A, B)
 
 
+def replay(path):
+    """./check C19 --replay <file>: re-run one recorded pair on the real implementation and the oracle"""
+    ent = json.load(open(path))
+
+    def from_json(x):
+        return tuple(from_json(y) for y in x) if isinstance(x, list) else x
+
+    if "a_json" not in ent:
+        print("replay file has no single failing pair (kind=%s): %s" % (ent.get("kind"), ent.get("what", "")[:300]))
+        return 2
+    ta, tb = from_json(ent["a_json"]), from_json(ent["b_json"])
+    A, B = AB.to_pyteal(ta), AB.to_pyteal(tb)
+    r = real_assignable(A, B)
+    ck = Check("C19", "quick")
+    f = oracle_pair(ck, str(A), str(B), ck.rng, 5)
+    print("type_spec_is_assignable_to(%s, %s) = %r; oracle: %s" % (str(A), str(B), r, "same encoding" if f is None else f))
+    if r[0] == "ok" and r[1] and f is not None:
+        print("VIOLATION property=C19 replay=%s" % path)
+        return 1
+    return 0
+
+
 def main(argv):
     args = parse_args(argv)
+    if args.replay:
+        return replay(args.replay)
     ck = Check("C19", args.tier)
     thorough = args.tier == "thorough"
     import pyteal as pt
@@ -308,7 +369,7 @@ def main(argv):
             if r[1] not in PYTEAL_ERRORS:
                 sem_fail.append({"kind": "crash", "a": AB.ty_text(ta), "b": AB.ty_text(tb), "str_a": str(A), "str_b": str(B),
                                  "why": "type_spec_is_assignable_to raises %s" % r[1]})
-            return
+            return None
         real = bool(r[1])
         if real != m_ans:
             mism.append({"kind": "assignable", "a": AB.ty_text(ta), "b": AB.ty_text(tb), "real": real, "model": m_ans, "origin": origin})
@@ -328,9 +389,10 @@ def main(argv):
             f = oracle_cache[key]
             hist["admitted:" + origin] = hist.get("admitted:" + origin, 0) + 1
             if f is not None and real:
-                sem_fail.append(dict(f, kind="semantic", a=AB.ty_text(ta), b=AB.ty_text(tb), str_a=sa, str_b=sb, origin=origin))
+                sem_fail.append(dict(f, kind="semantic", a=AB.ty_text(ta), b=AB.ty_text(tb), a_json=ta, b_json=tb, str_a=sa, str_b=sb, origin=origin))
             if len(ck.samples) < 5 and ta != tb and AB.size(ta) > 2:
                 ck.sample({"kind": "admitted-pair", "a": sa, "b": sb, "a_term": AB.ty_text(ta), "b_term": AB.ty_text(tb), "oracle": "ok" if f is None else f})
+        return real
 
     # corpus of earlier minimised failures first
     corpus = json.load(open(CORPUS)) if os.path.exists(CORPUS) else []
@@ -362,18 +424,20 @@ def main(argv):
     M = matrix(model, "matrix", U, U)
     Q = matrix(model, "eqmatrix", U, U)
     t_model = time.time() - t0
+    lay = [AB.parse_type_str(str(A)) if str(A) not in AB.TXN_STR.values() else ("txnkind", str(A)) for A in specs]
     for i, (ta, A) in enumerate(zip(U, specs)):
         row, qrow = M[i], Q[i]
         for j, (tb, B) in enumerate(zip(U, specs)):
-            check_pair(ta, tb, A, B, row[j] == "1", qrow[j] == "1", "exhaustive")
-    ck.coverage["exhaustive"] = True
-    ck.coverage["universe"] = {"types": len(U), "ordered_pairs": len(U) ** 2, "max_depth": max(AB.depth(t) for t in U),
+            r = check_pair(ta, tb, A, B, row[j] == "1", qrow[j] == "1", "exhaustive")
+            if r is False and lay[i] == lay[j]:
+                # equal layouts but rejected: allowed (the relation is directional), information only
+                admitted["same_layout_rejected"] += 1
+    ck.coverage["universe"] = {"every_ordered_pair_checked": True, "types": len(U), "ordered_pairs": len(U) ** 2, "max_depth": max(AB.depth(t) for t in U),
                                "model_matrix_s": round(t_model, 1), "pairs_s": round(time.time() - t0, 1)}
-    # how many pairs have equal layouts but are rejected (allowed: the relation is directional) — information only
     t_exh = time.time()
 
     # random deeper pairs, related by mutation
-    nrand = 60000 if thorough else 9000
+    nrand = 60000 if thorough else 15000
     batch = 300
     done = 0
     while done < nrand:
@@ -391,9 +455,10 @@ def main(argv):
             if ck.rng.random() < 0.5:
                 ta, tb = tb, ta
             pairs.append((ta, tb))
-        for (ta, tb) in pairs:
-            m_ans = model.ask((S("assignable"), AB.ty_sx(ta), AB.ty_sx(tb))) == S("true")
-            m_eq = model.ask((S("pyeq"), AB.ty_sx(ta), AB.ty_sx(tb))) == S("true")
+        ans = model.ask((S("pairs"),) + tuple((AB.ty_sx(ta), AB.ty_sx(tb)) for (ta, tb) in pairs))
+        assert ans[0] == S("m") and len(ans[1]) == 2 * len(pairs), str(ans)[:300]
+        for k, (ta, tb) in enumerate(pairs):
+            m_ans, m_eq = ans[1][2 * k] == "1", ans[1][2 * k + 1] == "1"
             A, B = AB.to_pyteal(ta), AB.to_pyteal(tb)
             check_pair(ta, tb, A, B, m_ans, m_eq, "random")
             hist["depth%d" % max(AB.depth(ta), AB.depth(tb))] = hist.get("depth%d" % max(AB.depth(ta), AB.depth(tb)), 0) + 1
@@ -477,7 +542,7 @@ def main(argv):
             if not accepted:
                 gates["methodcall_rejects"] += 1
             if accepted != want or (not accepted and r[1] != "TealTypeError"):
-                gate_fail.append({"kind": "gate-methodcall", "a": AB.ty_text(ta), "b": AB.ty_text(pb), "sig": sig, "str_a": str(A),
+                gate_fail.append({"kind": "gate-methodcall", "a": AB.ty_text(ta), "b": AB.ty_text(pb), "sig": sig, "str_a": str(A), "str_b": AB.arc4_str(pb),
                                   "model_assignable": want, "call": "accepted" if accepted else r[1:]})
     txn_enum = {"pay": pt.TxnType.Payment, "keyreg": pt.TxnType.KeyRegistration, "acfg": pt.TxnType.AssetConfig,
                 "axfer": pt.TxnType.AssetTransfer, "afrz": pt.TxnType.AssetFreeze, "appl": pt.TxnType.ApplicationCall}
@@ -490,7 +555,7 @@ def main(argv):
             gates["methodcall_txn"] += 1
             accepted = r[0] == "ok"
             if accepted != want or accepted != (kb == "any" or ka == kb):
-                gate_fail.append({"kind": "gate-methodcall-txn", "a": ka, "b": kb, "model_assignable": want, "call": "accepted" if accepted else r[1:]})
+                gate_fail.append({"kind": "gate-methodcall-txn", "a": ka, "b": kb, "str_a": AB.TXN_STR[ka], "str_b": AB.TXN_STR[kb], "model_assignable": want, "call": "accepted" if accepted else r[1:]})
     ck.coverage["gates"] = gates
 
     # ---------------- 6. known findings ----------------
@@ -518,9 +583,23 @@ def main(argv):
         if reported < 5:
             ck.violation("type_spec_is_assignable_to(%s, %s) is True but %s" % (f.get("str_a"), f.get("str_b"), f.get("why")), f)
             reported += 1
-    for f in gate_fail[:5]:
-        ck.violation("call gate disagrees with the relation: %s argument %s for parameter %s: model assignable=%s, call %s" % (
-            f["kind"], f["a"], f["b"], f["model_assignable"], f["call"]), f)
+    gate_sem = 0
+    for f in gate_fail:
+        # a gate that ACCEPTS a pair the relation rejects is a failing input of the property only if the
+        # two types really encode differently; otherwise it is a broken tie (gate vs relation)
+        bad = None
+        if f["call"] == "accepted" and "str_a" in f:
+            sb = f["str_b"]
+            bad = oracle_pair(ck, f["str_a"], sb, ck.rng, 3)
+        if bad is not None and gate_sem < 5:
+            gate_sem += 1
+            ck.violation("%s accepts an argument of type %s for a parameter of type %s although %s" % (f["kind"], f["str_a"], sb, bad["why"]), dict(f, oracle=bad))
+    if gate_fail and not gate_sem:
+        f = gate_fail[0]
+        ck.violation("call gate disagrees with the relation on %d case(s), first: %s argument %s for parameter %s: model assignable=%s, call %s; "
+                     "no accepted pair with different encodings found" % (len(gate_fail), f["kind"], f["a"], f["b"], f["model_assignable"], f["call"]),
+                     {"kind": "gate-correspondence", "broken": "SubroutineDefinition.invoke / InnerTxnBuilder.MethodCall vs call_admits", "count": len(gate_fail), "first": gate_fail[:5]},
+                     no_failing_input=True)
     if mism and not sem_fail and not gate_fail:
         ck.violation("correspondence broken: the real %s differs from ABI/Assignable.v / ABI/Descr.v on %d case(s) "
                      "(theorem C19_assignable_same_layout no longer transfers); the oracle (layout equality + algosdk encodings) "
@@ -547,7 +626,7 @@ def main(argv):
              "gates: SubroutineDefinition.invoke and InnerTxnBuilder.MethodCall on a sample of the universe. "
              "distinct = distinct (a, b) terms / descriptor shapes; non-trivial = not a class-table or leaf-descriptor query" % (len(U), nrand),
         trusted_base=[
-            "ARC-4 spec coq/ABI/Spec.v (hand-written from the ARC-4 text; validated against algosdk.abi on every run: type strings, is_dynamic, byte_len, encodings incl. rejected values)",
+            "ARC-4 spec coq/ABI/Spec.v (hand-written from the ARC-4 text; validated against algosdk.abi on every run: type strings, is_dynamic, byte_len, encodings incl. rejected values and the 65535/65536 boundaries, decodings)",
             "Theorems are about coq/ABI/Assignable.v + ABI/Descr.v (hand models of util.py type_spec_is_assignable_to and of the TypeSpec classes' __str__/__eq__/class hierarchy), tied by exact comparison on every run",
             "Python `==` dispatch rule (reflected operand first when the right operand's class is a proper subclass) as modelled in ABI/Descr.v py_eq",
             "uint widths outside {8,16,32,64} and user-defined TypeSpec subclasses are outside the correspondence (the model extrapolates)",
